@@ -22,7 +22,9 @@ EXPLANATION = (
     "function by copy.deepcopy or a constructor, and rule code never assigns to a token attribute; rule code also "
     "never assigns to attributes of the shared scan context; R12d (=R14c) the dispatch tables agree four ways so each "
     "rule receives exactly its own callbacks; R12e no rule module refers to another rule's plugin class, and a "
-    "helper class imported from another rule module is itself free of class-level state. "
+    "helper class imported from another rule module is itself free of class-level state; R12f (=R14a) the life-cycle "
+    "order holds whichever rules are enabled; R12g the pragma tables shared by all rules are written only when a file "
+    "starts and when its pragmas are compiled, never while failures are reported. "
     "Not decided: value-level interference through objects reachable from tokens that are shared by reference."
 )
 ASSUMPTIONS = ["rule code reaches tokens only through the callback arguments and its own fields (no global token registry exists: R12a)"]
@@ -308,3 +310,14 @@ def run(ctx: Context) -> None:
     r12c(ctx)
     c14.r14c(ctx, "R12d")
     r12e(ctx)
+    from sa.raises import RaiseAnalysis
+
+    # a rule's callbacks must not depend on which other rules are enabled: the life-cycle order holds
+    # whatever the dispatch lists contain, and the shared pragma tables are read-only while reporting
+    c14.r14ab(ctx, RaiseAnalysis(ctx.prog))
+    ctx.rules[-1].rule_id = "R12f"
+    for finding in ctx.rules[-1].findings:
+        finding.rule = "R12f"
+    from sa.rules import c11
+
+    c11.r11_table_writers(ctx, "R12g")
